@@ -22,6 +22,88 @@ def _reach_after(body, b):
 SWEEPERS = ("raw::RawTableInner::rehash_in_place", "raw::RawTableInner::rehash_in_place::{closure#0}", "raw::RawTableInner::prepare_rehash_in_place")
 
 
+def _sweep_alternatives(F, body, cls):
+    """(ok, message, block) for a sweep over the control bytes written as `ctrl_slice()[..n].chunks..(WIDTH)` or as a pointer
+    walk `p = ctrl(0); while p (+ a) REL ctrl(buckets - b) { ..; p = p.add(WIDTH) }`; None if neither form is present."""
+    import re as _re
+    from rules.arith import _width
+    W = _width(F)
+    # (1) a prefix of the control slice: its end must be buckets()
+    for i, k, s in body.stmts():
+        incl = s["k"] == "assign" and s["rv"]["k"] == "aggregate" and (s["rv"].get("adt") or "").endswith("range::RangeToInclusive")
+        if incl:
+            c = cls(body, s["rv"]["ops"][0])
+            if c == "MASK":
+                return True, "the group-wise sweep runs over ctrl_slice()[..=bucket_mask] (= ..buckets())", i
+            return False, "a loop that must visit every control group runs over ctrl_slice()[..=<%s>] instead of ..=bucket_mask / ..buckets(): groups at the end are cut off or the slice overruns" % c, i
+        if s["k"] == "assign" and s["rv"]["k"] == "aggregate" and (s["rv"].get("adt") or "").endswith("range::RangeTo"):
+            c = cls(body, s["rv"]["ops"][0])
+            ek = expr_key(body, s["rv"]["ops"][0])
+            # buckets(), bucket_mask + 1, or either of them raised to at least one group (`max(buckets, WIDTH)`: tables smaller than
+            # a group still own WIDTH control bytes)
+            full = c in ("BUCKETS", "ADD(MASK,CONST:1)") or (("max(" in ek) and ("bucket_mask" in ek or "buckets" in ek) and ("c:1:usize" in ek or "buckets" in ek) and ("c:%d:usize" % W) in ek)
+            if full:
+                return True, "the group-wise sweep runs over ctrl_slice()[..buckets()]", i
+            return False, ("a loop that must visit every control group runs over the first <%s> control bytes instead of buckets(): the last group is cut off (chunks_exact drops the incomplete tail), "
+                           "so its tombstones are not converted before the in-place rehash and removed elements come back as live ones" % c), i
+    # (2) pointer walk
+    for i in body.normal:
+        t = body.term(i)
+        if t["k"] != "switch" or t["discr"]["k"] not in ("copy", "move") or t["discr"]["p"].get("proj"):
+            continue
+        d = body.single_def(t["discr"]["p"]["l"])
+        if not d or d[0] != "stmt" or d[3]["rv"]["k"] != "binop" or d[3]["rv"]["op"] not in ("Lt", "Le", "Gt", "Ge"):
+            continue
+        a_, b_ = d[3]["rv"]["a"], d[3]["rv"]["b"]
+        tys = [body.locals[o["p"]["l"]]["ty"]["s"] if o["k"] in ("copy", "move") else "" for o in (a_, b_)]
+        if not all(x.startswith("*") for x in tys):
+            continue
+        ka, kb = expr_key(body, a_), expr_key(body, b_)
+        op = d[3]["rv"]["op"]
+
+        def side(kx):
+            """('walk', a) for the walking pointer plus a constant, ('end', b) for ctrl(buckets - b)"""
+            add = 0
+            m = _re.match(r"^.*::add\((.*),c:(\d+):usize\)$", kx)
+            inner = kx
+            if m and "RawTableInner::ctrl(" not in m.group(1).split("::add(")[0][:0] + "":
+                pass
+            if m and not m.group(1).startswith("raw::RawTableInner::ctrl("):
+                inner, add = m.group(1), int(m.group(2))
+            if "RawTableInner::ctrl(" in inner and "buckets" in inner:
+                mb = _re.search(r"c:(\d+):usize", inner.split("buckets", 1)[1])
+                sub = ("saturating_sub" in inner or "Sub(" in inner or "wrapping_sub" in inner)
+                return ("end", (int(mb.group(1)) if (mb and sub) else 0) - add)
+            if _re.match(r"^l\d+", inner) or inner.startswith("l"):
+                return ("walk", add)
+            return (None, 0)
+        sa, sb = side(ka), side(kb)
+        if {sa[0], sb[0]} != {"walk", "end"}:
+            continue
+        if sa[0] == "end":
+            sa, sb = sb, sa
+            op = {"Lt": "Gt", "Le": "Ge", "Gt": "Lt", "Ge": "Le"}[op]
+        # the loop continues on the edge where `walk + a  op  ctrl(buckets - b)` holds
+        zero = [bb for v, bb in t["targets"] if v == 0]
+        cont = [x for x in body.nsucc[i] if x not in zero]
+        loops = [blocks for h, blocks in body.natural_loops() if i in blocks]
+        stays_on_true = bool(loops) and any(x in loops[0] for x in cont)
+        if not stays_on_true:
+            op = {"Lt": "Ge", "Le": "Gt", "Gt": "Le", "Ge": "Lt"}[op]
+        a, b = sa[1], sb[1]
+        if op == "Lt":
+            good = (a + b == 0)
+        elif op == "Le":
+            good = (a + b == W)
+        else:
+            continue
+        if good:
+            return True, "the pointer walk over the control groups covers ctrl(0) .. ctrl(buckets()) (guard: p + %d %s ctrl(buckets - %d))" % (a, "<" if op == "Lt" else "<=", b), i
+        return False, ("a pointer walk that must visit every control group stops one group early (it continues while p + %d %s ctrl(buckets() - %d)): the last group is never converted, "
+                       "so its tombstones are rehashed as if they were live elements - removed keys come back, live ones are lost" % (a, "<" if op == "Lt" else "<=", b)), i
+    return None
+
+
 def r_sweep_range(F, V):
     """loops that must visit every bucket of the table (the in-place rehash, its unwind guard, the bulk tag
     conversion) iterate 0..buckets(): a smaller end (bucket_mask, buckets() - 1, ...) skips the last bucket(s)."""
@@ -52,6 +134,19 @@ def r_sweep_range(F, V):
                 else:
                     R.violation("%s|range-end" % p, body, "a loop that must visit every bucket runs over 0..<%s> instead of 0..buckets(): the last bucket is never visited (an element there is neither re-hashed nor cleaned up after a panic, and `items` goes stale)" % c, line=line_of(body, stmt=s))
                     R.inst(key, "sweep does not cover all buckets", "violation", True, where(body, stmt=s))
+        if not found:
+            # other spellings of the sweep: a slice of the control bytes cut into groups, or a pointer that walks from ctrl(0)
+            alt = _sweep_alternatives(F, body, cls)
+            if alt is not None:
+                okk, msg, blk = alt
+                found = True
+                n += 1
+                key = "%s|sweep" % p
+                if okk:
+                    R.inst(key, msg, "ok", True, where(body, bb=blk))
+                else:
+                    R.violation("%s|range-end" % p, body, msg, line=line_of(body, bb=blk))
+                    R.inst(key, "sweep does not cover all buckets", "violation", True, where(body, bb=blk))
         if not found:
             R.undec("%s: no 0..n range found" % p)
     R.floor("full-table sweeps", n, 3)
@@ -784,9 +879,12 @@ def r_resize_target(F, V):
             is_overflow = any(c.endswith("checked_add") for c in S.calls) and not S.has_call("bucket_mask_to_capacity")
             is_decision = S.has_call("bucket_mask_to_capacity")
             # a debug assertion is not a condition of the release behaviour
-            def _dbg(x):
+            def _dbg(x, follow=True):
                 tt = b.term(x)
-                return any("debug_assert" in m for m in (list((tt.get("sp") or {}).get("mac", [])) + list((tt.get("sp_full") or {}).get("mac", []))))
+                if any("debug_assert" in m for m in (list((tt.get("sp") or {}).get("mac", [])) + list((tt.get("sp_full") or {}).get("mac", [])))):
+                    return True
+                # the test of a debug assertion: one arm is the assertion's own panic
+                return follow and any(_dbg(y, False) and not b.can_reach_return(y) for y in b.nsucc[x])
             # (the branch itself belongs to a debug_assert! expansion, or is only evaluated under its `cfg!(debug_assertions)` test)
             is_dbg = _dbg(bb) or any(_dbg(b2) for (b2, s2) in b.control_deps_trans(bb, "all"))
             if not (is_overflow or is_decision or is_dbg):
